@@ -28,12 +28,17 @@
 (* context of its creation (XPath 3.1, 3.1.6), so its calls are gated by   *)
 (* the allow flag of the CREATING evaluation (hist[1]).                    *)
 (*                                                                         *)
+(* DECIMAL CONTEXT.  Evaluations leave decimal.getcontext() as it was, also *)
+(* when the generators of lazily evaluated constructs are abandoned,       *)
+(* interrupted by a raising consumer or consumed in lockstep (SeqEval).    *)
+(*                                                                         *)
 (* ENTITIES.  XML text with a DOCTYPE that declares entities is rejected   *)
 (* by fn:parse-xml, fn:parse-xml-fragment and by the defuse_xml helper     *)
 (* when the parser has its default defuse_xml = TRUE - wherever the        *)
 (* DOCTYPE is: after a prolog (comment, PI, blanks, XML declaration +      *)
 (* comment) of ANY size, whatever kind of entity is declared and wherever  *)
-(* it is referenced.                                                       *)
+(* it is referenced, and whatever the XML declaration of the text says     *)
+(* (the text is a string: encoding / version / standalone mean nothing).   *)
 (* Outside: defuse_xml = FALSE, DOCTYPEs that declare no entity (result    *)
 (* <<"any">>), the values of the variables (identified with their names),  *)
 (* fn:doc (context documents are already parsed trees).                    *)
@@ -48,6 +53,12 @@ CONSTANTS Names,      \* abstract environment variable names
           Prologs,    \* what precedes the DOCTYPE / the root element
           Sizes,      \* length of the prolog in characters
           RefPos,     \* where the entity is referenced: "content" | "attr"
+          Decls,      \* the XML declaration in front of everything: "none", "version", an encoding name
+                      \* ("UTF-8", "utf-8", "ISO-8859-1", "US-ASCII", "UTF-16", "UTF-16LE", "UTF-16BE",
+                      \* "UCS-4", "bogus"), "standalone-yes", "standalone-no"
+          SeqFns,     \* lazily evaluated sequence constructs (subsequence, remove, for, predicates ...)
+          Consumes,   \* how their result is consumed: fully, partially, by a raising consumer, in lockstep
+          Mags,       \* magnitude of the numeric argument: ordinary, 1e27, 1e30, 1e300, huge integer, NaN, INF
           Ops         \* arithmetic evaluations that use the decimal module
 
 VARIABLES env, dctx, obj, fun, hist, res, last
@@ -61,8 +72,12 @@ Declares(ek) == ek \in {"internal", "internal_unused", "external", "parameter", 
 (* the answers, as functions of what the evaluation may look at *)
 EnvVarRes(n, allow, e) == IF allow /\ n \in e THEN <<"value", n>> ELSE <<"empty">>
 AvailRes(allow, e)     == IF allow THEN <<"names", e>> ELSE <<"empty">>
-ParseRes(api, ek, pre, size, ref) ==
-  IF Declares(ek) THEN <<"reject">> ELSE IF ek = "none" THEN <<"doc">> ELSE <<"any">>
+(* the text is a STRING: what its XML declaration says about the encoding, the version or *)
+(* standalone has no influence on the verdict about its entities                          *)
+PlainDecls == {"none", "UTF-8", "utf-8"}
+ParseRes(api, ek, pre, size, ref, decl) ==
+  IF Declares(ek) THEN <<"reject">>
+  ELSE IF ek = "none" /\ decl \in PlainDecls THEN <<"doc">> ELSE <<"any">>
 
 (* which allow flag gates an evaluation made through the object after the history h *)
 Gate(o, h, allow) == IF o = "fnitem" /\ h # <<>> THEN h[1] ELSE allow
@@ -98,11 +113,13 @@ AvailVars(allow) ==      \* fn:available-environment-variables()
 (* ---- evaluations that do not depend on the object: offered in one base configuration *)
 Base == hist = <<>> /\ obj = "selector" /\ fun = "envvar" /\ last = NoEval
 
-ParseXml(api, ek, pre, size, ref) ==
+ParseXml(api, ek, pre, size, ref, decl) ==
   /\ Base
-  /\ size > 100 => env = {}     \* the text functions never look at the environment: the long texts are
-                                 \* offered in the empty environment only
-  /\ res' = ParseRes(api, ek, pre, size, ref)
+  /\ (size > 100 \/ decl # "none") => env = {}   \* the text functions never look at the environment: the long
+                                 \* texts and the declaration dimension are offered in the empty one only
+  /\ decl # "none" => (size <= 100 /\ pre # "decl_comment" /\ ref = "content")
+  /\ api = "defuse_xml" => decl \in PlainDecls    \* the helper alone only has to forbid what it can read
+  /\ res' = ParseRes(api, ek, pre, size, ref, decl)
   /\ last' = [kind |-> "parse", allow |-> FALSE, ek |-> ek]
   /\ UNCHANGED <<env, dctx, obj, fun, hist>>
 
@@ -110,6 +127,16 @@ DefaultCollation ==      \* fn:default-collation() of a parser built with defaul
   /\ Base                \* process: LC_ALL / LC_COLLATE / LANG of the environment are not consulted
   /\ res' = <<"codepoint">>
   /\ last' = [kind |-> "defcoll", allow |-> FALSE, ek |-> "none"]
+  /\ UNCHANGED <<env, dctx, obj, fun, hist>>
+
+(* a lazily evaluated sequence construct whose numeric argument has the magnitude `mag`, consumed *)
+(* completely, partially (its generator is abandoned), by a consumer that raises, in lockstep with *)
+(* a second one (non-LIFO), or as an iter_select() iterator that the caller drops after one item:   *)
+(* whatever happens to the generators, the thread's decimal context is the caller's                *)
+SeqEval(fn, consume, mag) ==
+  /\ Base /\ env = {}
+  /\ res' = <<"any">>
+  /\ last' = [kind |-> "seq", allow |-> FALSE, ek |-> "none"]
   /\ UNCHANGED <<env, dctx, obj, fun, hist>>
 
 Decimal(op) ==           \* xs:decimal arithmetic, rounding, casts, fn:format-number of huge values
@@ -122,8 +149,9 @@ Next == \/ \E n \in Names : SetVar(n)
         \/ \E n \in Names : UnsetVar(n)
         \/ \E n \in Names, a \in BOOLEAN : EnvVar(n, a)
         \/ \E a \in BOOLEAN : AvailVars(a)
-        \/ \E api \in Apis, ek \in EntKinds, pre \in Prologs, size \in Sizes, ref \in RefPos :
-              ParseXml(api, ek, pre, size, ref)
+        \/ \E api \in Apis, ek \in EntKinds, pre \in Prologs, size \in Sizes, ref \in RefPos, decl \in Decls :
+              ParseXml(api, ek, pre, size, ref, decl)
+        \/ \E fn \in SeqFns, consume \in Consumes, mag \in Mags : SeqEval(fn, consume, mag)
         \/ \E op \in Ops : Decimal(op)
         \/ DefaultCollation
 
@@ -155,5 +183,10 @@ NeverExpanded == (last.kind = "parse" /\ Declares(last.ek)) => res = <<"reject">
 (* ... wherever the DOCTYPE starts, whatever precedes it, wherever the reference is    *)
 PositionBlind ==
   \A api \in Apis, ek \in EntKinds, p1 \in Prologs, p2 \in Prologs, s1 \in Sizes, s2 \in Sizes,
-     r1 \in RefPos, r2 \in RefPos : ParseRes(api, ek, p1, s1, r1) = ParseRes(api, ek, p2, s2, r2)
+     r1 \in RefPos, r2 \in RefPos :
+        ParseRes(api, ek, p1, s1, r1, "none") = ParseRes(api, ek, p2, s2, r2, "none")
+(* ... and whatever its XML declaration says                                           *)
+DeclarationBlind ==
+  \A api \in Apis, ek \in EntKinds, pre \in Prologs, size \in Sizes, ref \in RefPos, d1 \in Decls, d2 \in Decls :
+     Declares(ek) => ParseRes(api, ek, pre, size, ref, d1) = ParseRes(api, ek, pre, size, ref, d2)
 =============================================================================
